@@ -28,6 +28,7 @@ import (
 	"git.arvados.org/arvados.git/lib/dispatchcloud/worker"
 	"git.arvados.org/arvados.git/sdk/go/arvados"
 	"golang.org/x/crypto/ssh"
+	"verif.local/vcommon/stats"
 )
 
 type vEventRec struct {
@@ -126,6 +127,12 @@ type vMonitor struct {
 	restartsAlive int // restarts that happened while >=1 crunch-run was alive
 	lockFails     int
 	heldNow       map[cloud.InstanceID]bool
+	// client-side view of "crunch-run --detach" calls that have not returned
+	// to the pool yet (key vm/uuid), for the double-Close defect classifier
+	inflight        map[string]int
+	seenDuringStart map[string]bool
+	hidCounted      map[string]bool
+	forceList       map[string]bool
 	staleLockTO   time.Duration
 	bootTO        time.Duration
 	rng           *rand.Rand // VM plans beyond the scenario's list; guarded by mu
@@ -375,16 +382,6 @@ func (m *vMonitor) allLiveProcs() map[string]map[vProcRef]bool {
 	return r
 }
 
-type vTee struct {
-	w   io.Writer
-	buf bytes.Buffer
-}
-
-func (t *vTee) Write(p []byte) (int, error) {
-	t.buf.Write(p)
-	return t.w.Write(p)
-}
-
 // exec wraps StubVM.Exec (the VM side of every ssh command).
 func (m *vMonitor) exec(info *vVMInfo, inner test.SSHExecFunc, env map[string]string, command string, stdin io.Reader, stdout, stderr io.Writer) uint32 {
 	sub := vGenRe.FindStringSubmatch(command)
@@ -415,11 +412,13 @@ func (m *vMonitor) exec(info *vVMInfo, inner test.SSHExecFunc, env map[string]st
 		}
 		return rc
 	case cmd == "crunch-run --list":
-		tee := &vTee{w: stdout}
-		rc := inner(env, cmd, stdin, tee, stderr)
+		var buf bytes.Buffer
+		rc := inner(env, cmd, stdin, &buf, stderr)
+		out := buf.String()
 		if rc == 0 {
-			m.listAnswered(info, gen, tee.buf.String())
+			out = m.listAnswered(info, gen, out)
 		}
+		io.WriteString(stdout, out)
 		return rc
 	case strings.HasPrefix(cmd, "crunch-run --kill "):
 		uuid := vUUIDRe.FindString(cmd)
@@ -430,6 +429,9 @@ func (m *vMonitor) exec(info *vVMInfo, inner test.SSHExecFunc, env map[string]st
 			tr.kills++
 		}
 		m.ev(gen, "kill", vmid, uuid, fmt.Sprintf("rc=%d", rc))
+		if key := vmid + "/" + uuid; rc == 0 && gen == m.curGen && m.inflight[key] > 0 && m.seenDuringStart[key] && !m.forceList[key] {
+			m.doubleClose(key, "crunch-run --kill succeeded")
+		}
 		m.mu.Unlock()
 		return rc
 	case strings.HasPrefix(cmd, "crunch-run --detach "):
@@ -438,7 +440,21 @@ func (m *vMonitor) exec(info *vVMInfo, inner test.SSHExecFunc, env map[string]st
 	return inner(env, cmd, stdin, stdout, stderr)
 }
 
-func (m *vMonitor) listAnswered(info *vVMInfo, gen int, out string) {
+// doubleClose records the (known) worker-pool defect: the runner of a
+// container was moved to wkr.running by a probe and closed again while its
+// Start() call had not returned; when Start() returns the closed runner is put
+// back and the next closeRunner()/worker.Close() panics ("close of closed
+// channel") on a pool goroutine, killing the dispatcher. To be able to report
+// it, the container is listed by this VM from now on so that the pool does not
+// get to the second Close() before the scenario is torn down. Caller holds m.mu.
+func (m *vMonitor) doubleClose(key, how string) {
+	m.forceList[key] = true
+	m.violate("[crash] %s: %s while the pool's `crunch-run --detach` call for it had not returned yet, after a probe had already shown it running: "+
+		"the pool closed the runner and will put the closed runner back into wkr.running when Start() returns; the next closeRunner()/worker.Close() panics (close of closed channel) and the dispatcher process dies",
+		key, how)
+}
+
+func (m *vMonitor) listAnswered(info *vVMInfo, gen int, out string) string {
 	listed := map[string]bool{}
 	broken := false
 	for _, line := range strings.Split(out, "\n") {
@@ -453,7 +469,53 @@ func (m *vMonitor) listAnswered(info *vVMInfo, gen int, out string) {
 	m.mu.Lock()
 	defer m.mu.Unlock()
 	if m.isDead(gen) || gen != m.curGen {
-		return
+		return out
+	}
+	// double-Close classifier (see doubleClose)
+	prefix := string(info.id) + "/"
+	var hide, force []string
+	for key, n := range m.inflight {
+		if n <= 0 || !strings.HasPrefix(key, prefix) {
+			continue
+		}
+		uuid := key[len(prefix):]
+		switch {
+		case m.forceList[key]:
+		case listed[uuid] && stats.KnownActive("pool-double-close-runner"):
+			// known finding: keep the pool from seeing the container
+			// while its start is in flight, so the run can go on
+			hide = append(hide, uuid)
+			if !m.hidCounted[key] {
+				m.hidCounted[key] = true
+				stats.Known("pool-double-close-runner", fmt.Sprintf("%s listed by a probe while --detach in flight (hidden from the answer)", key))
+			}
+		case listed[uuid]:
+			m.seenDuringStart[key] = true
+		case m.seenDuringStart[key]:
+			m.doubleClose(key, "a later probe did not list it any more")
+		}
+	}
+	for key := range m.forceList {
+		if strings.HasPrefix(key, prefix) && !listed[key[len(prefix):]] {
+			force = append(force, key[len(prefix):])
+		}
+	}
+	if len(hide) > 0 || len(force) > 0 {
+		var lines []string
+		for _, line := range strings.Split(strings.TrimSuffix(out, "\n"), "\n") {
+			drop := false
+			for _, u := range hide {
+				drop = drop || line == u
+			}
+			if !drop {
+				lines = append(lines, line)
+			}
+		}
+		lines = append(force, lines...)
+		out = strings.Join(lines, "\n") + "\n"
+		for _, u := range hide {
+			delete(listed, u)
+		}
 	}
 	if !info.listOK[gen] {
 		info.listOK[gen] = true
@@ -478,6 +540,7 @@ func (m *vMonitor) listAnswered(info *vVMInfo, gen int, out string) {
 			delete(m.inherited, uuid)
 		}
 	}
+	return out
 }
 
 func (m *vMonitor) dbState(uuid string) (string, int64) {
